@@ -934,8 +934,14 @@ def lib_correspondence(env, rep, impl):
     for t in texts:
         lines.append("C16 N " + hx(t))
         try:
-            outs.append(hx(str(ipaddress.IPv6Address(t))))
+            y = str(ipaddress.IPv6Address(t))
+            outs.append(hx(y))
             rep.count("N:valid")
+            # the assumptions the theorems make about ipaddress (`IpLaws` in Proofs/Uri/NormalForm.lean)
+            head = y.partition("%")[0]
+            if not (str(ipaddress.IPv6Address(y)) == y and ":" in y and ":" in t and head == head.lower()
+                    and y[0] not in "v[" and all(c in t or c in "0123456789abcdef:." for c in y)):
+                raise HarnessError("ipaddress violates the assumed IpLaws on %r -> %r" % (t, y))
         except ValueError:
             outs.append("!")
             rep.count("N:invalid")
